@@ -5,13 +5,34 @@
    callbacks/delete.go Delete (IN over the rows of the deleted value, then of the Model value when
    it is another value; a clause only `if len(values) > 0`), callbacks/update.go
    ConvertToAssignments (struct: one Eq per non-zero key field; slice: IN over the rows when some
-   element has a non-zero key field). *)
+   element has a non-zero key field; the update value IS the model - `db.Updates(&v)` without
+   Model(...), Dest == Model and addressable -: the loop over the schema's columns, a key column
+   goes to the condition branch BEFORE Select / Omit are consulted, every other column to the
+   assignment branch). *)
 From Verif Require Import Base.
 
 (* a key field of one record: [true] = the field holds its zero value *)
 Definition record := list bool.
-(* a value handed to gorm: one record, or a slice of records *)
-Inductive mvalue := VStruct (r : record) | VSlice (rs : list record).
+(* a column of the schema as ConvertToAssignments' loop over `stmt.Schema.DBNames` sees it when the
+   update value is the model itself: primary key?, zero value?, and what SelectAndOmitColumns says
+   about the column (Some true = selected, Some false = omitted, None = not named) *)
+Record column := mk_col { col_pk : bool; col_zero : bool; col_sel : option bool }.
+(* a value handed to gorm: one record, a slice of records, or (update methods only) the model value
+   itself as update value, all its columns in schema order *)
+Inductive mvalue := VStruct (r : record) | VSlice (rs : list record) | VSelf (cols : list column).
+
+(* the key fields of the model value, in schema order *)
+Definition self_record (cols : list column) : record := map col_zero (filter col_pk cols).
+
+(* one iteration of the column loop: `if !field.PrimaryKey || ... { assignment branch: consults
+   selectColumns } else { if !isZero { AddClause(Where Eq) } }` - number of conditions added *)
+Definition self_col_conds (c : column) : nat :=
+  if negb (col_pk c) then
+    (* assignment branch: Select / Omit decide whether the column is SET; never a condition *)
+    match col_sel c with Some _ => 0 | None => 0 end
+  else if col_zero c then 0 else 1.
+Definition self_key_conds (cols : list column) : nat :=
+  fold_left (fun n c => n + self_col_conds c)%nat cols 0%nat.
 
 (* GetIdentityFieldValuesMap on one record: the loop over the key fields *)
 Definition not_zero (r : record) : bool := fold_left (fun nz z => nz || negb z) r false.
@@ -20,6 +41,7 @@ Definition identity_rows (v : mvalue) : list record :=
   match v with
   | VStruct r => if not_zero r then [r] else []
   | VSlice rs => filter not_zero rs
+  | VSelf cols => if not_zero (self_record cols) then [self_record cols] else []
   end.
 
 (* callbacks/delete.go: one IN clause per value with at least one row *)
@@ -34,6 +56,7 @@ Definition update_key_conds (vals : list mvalue) : nat :=
   fold_left (fun n v => n + match v with
                               | VStruct r => length (filter negb r)          (* one Eq per non-zero field *)
                               | VSlice rs => if update_scan_zero rs then 0 else 1
+                              | VSelf cols => self_key_conds cols
                               end)%nat vals 0%nat.
 
 (* the key condition of a case: [del] = the finisher is Delete *)
@@ -45,4 +68,5 @@ Definition has_key (vals : list mvalue) : bool :=
   existsb (fun v => match v with
                     | VStruct r => existsb negb r
                     | VSlice rs => existsb (existsb negb) rs
+                    | VSelf cols => existsb negb (self_record cols)
                     end) vals.
